@@ -6,6 +6,19 @@
 #define C04_SHIM_HANDLE_HPP
 #include "codec_shim_handle.hpp"
 
+// exactly n accessible bytes: for n == 0 a pointer one past a 1-byte allocation, so that ANY access is reported
+inline std::uint8_t* c04_exact_alloc(std::size_t n, void** base)
+{
+    *base = std::malloc(n ? n : 1);
+    return n ? static_cast<std::uint8_t*>(*base) : static_cast<std::uint8_t*>(*base) + 1;
+}
+inline std::uint8_t* c04_exact_copy(const std::uint8_t* src, std::size_t n, void** base)
+{
+    std::uint8_t* p = c04_exact_alloc(n, base);
+    if (n) { std::memcpy(p, src, n); }
+    return p;
+}
+
 template <typename T>
 int handle_c04(const char* op, const char* rest, void (*probe)())
 {
@@ -23,15 +36,21 @@ int handle_c04(const char* op, const char* rest, void (*probe)())
             std::string first(rest, static_cast<std::size_t>(sp - rest));
             std::uint8_t* a = nullptr;
             const std::size_t na = hex_decode(first.c_str(), &a);
-            (void) deserialize(o2, nunavut::support::const_bitspan{a, na});
+            void* abase = nullptr;
+            const std::uint8_t* ax = c04_exact_copy(a, na, &abase);
+            (void) deserialize(o2, nunavut::support::const_bitspan{ax, na});
+            std::free(abase);
             std::free(a);
             rest = sp + 1;
         }
         std::uint8_t* in = nullptr;
         const std::size_t n = hex_decode(rest, &in);
-        const auto r = deserialize(o2, nunavut::support::const_bitspan{in, n});
+        void* inbase = nullptr;
+        const std::uint8_t* inx = c04_exact_copy(in, n, &inbase);
+        const auto r = deserialize(o2, nunavut::support::const_bitspan{inx, n});
         if (!r) { o_str(cpp_err_name(static_cast<int>(r.error()))); }
         else { o_str("ok"); dump(o2); o_u64(r.value()); }
+        std::free(inbase);
         std::free(in);
         return 1;
     }
@@ -42,13 +61,14 @@ int handle_c04(const char* op, const char* rest, void (*probe)())
         try { parse(&p, obj); } catch (const NotApplicable&) { o_str("n/a"); return 1; }
         const std::size_t cap = static_cast<std::size_t>(p_u64(&p));
         if (p.err) { return 0; }
-        std::uint8_t* buf = static_cast<std::uint8_t*>(std::malloc(cap));
+        void* bufbase = nullptr;
+        std::uint8_t* buf = c04_exact_alloc(cap, &bufbase);
         if (cap) { std::memset(buf, 0x55, cap); }
         const auto r = serialize(obj, nunavut::support::bitspan{buf, cap});
         if (!r) { o_str(cpp_err_name(static_cast<int>(r.error()))); }
         else if (r.value() > cap) { o_str("err:size-above-capacity"); }
         else { o_str("ok"); o_hex(buf, r.value()); }
-        std::free(buf);
+        std::free(bufbase);
         return 1;
     }
     return handle<T>(op, rest, probe);
